@@ -56,6 +56,8 @@ def run(ctx):
                     script.insert(rng.randrange(len(script)), ("reset",))
             for _ in range(rng.randint(0, 3)):
                 script.insert(rng.randrange(1, len(script)), ("bad", rng.choice([np.array([[1.0, 2.0]]), [[1.0], [2.0]], np.zeros((2, 1))])))
+            if i % 3 == 0:      # the very first call is refused (nothing is established yet, so it is the detector's own one-variable guard that refuses)
+                script.insert(0, ("bad", rng.choice([np.array([[1.0, 2.0]]), [3.0, 4.0], pd.DataFrame({"a": [1.0], "b": [2.0]})])))
             wname = draw_wrap(rng)       # scalars, lists, arrays, frames, series, views of a reused buffer - one kind or a mix per stream
             t = runner(p, script, wrap_of(wname))
             t["wrap"] = wname
